@@ -88,10 +88,9 @@ def run(r):
                                         "cmd": "c16 one %s \"%s\"" % (c["class"], c["history"])}, ensure_ascii=False))
 
     # ---------------- search: implementation vs association list
-    depth = 5 if quick else 9
-    if r.broken:
-        depth += 0 if quick else 0
-    rc, out, err = run_bin("c16", ["exh", depth] + ([] if quick else ["memo"]), seed=r.seed, timeout=3000)
+    # memoised on the concrete state (key table, indices, len, rows, storage type, association list)
+    depth = 6 if quick else 9
+    rc, out, err = run_bin("c16", ["exh", depth, "memo"], seed=r.seed, timeout=3000)
     lines = json_lines(out)
     if rc != 0:
         r.broken_obligation("search-harness", "c16 exh failed to run", (out + err)[-2000:])
@@ -127,7 +126,7 @@ def run(r):
     r.coverage["distinct_nontrivial"] = sum(l.get("histories", 0) for l in phases) + len(cases)
     r.coverage["rule"] = ("tie: the regression corpus, then random histories over {insert, remove, get, has, length, un-map, reverse, rotate, take, drop, join with "
                           "repeated and shared keys} on universes of 4/12/40 integer, character, NaN-containing and -0-containing key sets, run through the interpreter; "
-                          "search: the regression corpus first, then every history of mutators (8 inserts, 4 removes, reverse, rotate 1, take 0/1/2, drop 1/2, 3 joins) up to the given depth from the empty map with every observer "
+                          "search: the regression corpus first, then every history of mutators (8 inserts, 4 removes, reverse, rotate 1, take 0/1/2, drop 1/2, 3 joins) up to depth 6 (quick) / 9 (thorough), one less for the non-integer classes, memoised on the concrete state, from the empty map with every observer "
                           "(get/has of each key, length, un-map, check_value) at every node, for number, character, NaN, -0, string and boxed keys; "
                           "all key lists up to length 4 for map construction; random histories to length 200 over 6/24/60 keys; "
                           "non-trivial = distinct histories")
